@@ -15,6 +15,8 @@
 #include "hcommon.h"
 #include <algorithm>
 #include <limits>
+#include <sys/stat.h>
+#include <unistd.h>
 using namespace SimTK;
 using vh::hex;
 
@@ -108,7 +110,7 @@ static const char* algName(int a) {
 
 // distance bound used for "returned point is the unique minimiser within the convergence tolerance"
 // (per-algorithm meaning of the tolerance; constants measured on the clean tree, see notes/C39.md)
-static double nearBound(int alg, const Run& r, int n, double fret) {
+static double nearBound(int alg, const Run& r, int n, double fret, double fstar) {
     // error of the numerical gradient (central differences are exact on quadratics up to rounding; forward
     // differences carry the truncation term h*A_ii/2 with h ~ 1.4e-7 |x|)
     double graderr = r.numGrad ? (r.method == 1 ? 1e-7 : 1e-4) * (1 + std::fabs(fret)) : 0;
@@ -116,7 +118,10 @@ static double nearBound(int alg, const Run& r, int n, double fret) {
         // simbody's own termination test in lbfgs.cpp: max_i |g_i| max(1,|x_i|) / max(0.1,|f|) <= tol, and lambda_min(A) >= 1
         // => ||x - x*||_2 <= ||g||_2 <= sqrt(n) tol max(0.1,|f|)        (theorem lbfgs_stop_distance)
         case LBFGS:         return std::sqrt((double)n) * (r.tol * std::max(0.1, std::fabs(fret)) * 1.001 + graderr);
-        case LBFGSB:        return 50 * (r.tol + graderr) + 2e-3;     // pgtol or relative f reduction 1e7*eps
+        // L-BFGS-B stops on max|proj g_i| <= tol or on a relative f reduction <= factr*eps = 2.2e-9: what that bounds is the
+        // objective gap (measured <= 8e-7 max(1,|f*|)); quadratic growth f(x)-f(x*) >= 1/2 ||x-x*||^2 (theorem kkt_optimal)
+        // turns the gap bound into a distance bound
+        case LBFGSB:        return std::sqrt(2 * (2.2e-7 + 50.0 * n * (r.tol + graderr) * (r.tol + graderr)) * std::max(1.0, std::fabs(fstar)));
         case InteriorPoint: return 200 * (r.tol + r.ctol + graderr) + 1e-4;
         case CMAES:         return 50 * std::sqrt(r.tol);            // stopTolFun on function differences
     }
@@ -205,7 +210,7 @@ static void predicates(const Prob& P, const Run& R, int alg, double fret, const 
     // (5) strictly convex problems: the returned point is the (designed, KKT-certified) unique minimiser within tolerance
     if (P.haveStar) {
         double e2 = 0; for (int i = 0; i < n; ++i) e2 += (xret[i] - P.xstar[i]) * (xret[i] - P.xstar[i]);
-        vh::P("unique_minimiser_within_tol", key + ".nearopt", std::sqrt(e2), nearBound(alg, R, n, fret));
+        vh::P("unique_minimiser_within_tol", key + ".nearopt", std::sqrt(e2), nearBound(alg, R, n, fret, P.fAt(P.xstar.data())));
     }
 }
 
@@ -403,9 +408,11 @@ static void replay() {
 
 int main(int argc, char** argv) {
     vh::Args args(argc, argv);
+    // c-cmaes writes "actparcmaes.par" into the current directory: keep that out of the repository
+    { const char* d = "/tmp/agent-C39"; mkdir(d, 0755); if (chdir(d) != 0) { /* stay where we are */ } }
     if (args.mode == "replay") { replay(); return 0; }
     bool thorough = args.n > 400;
-    LOGCAP = thorough ? 1500 : 400;
+    LOGCAP = 400;
     int maxN = thorough ? 20 : 8;
     // exhaustive selection table
     for (int req = 0; req <= 7; ++req) for (int ne = 0; ne <= 1; ++ne) for (int ni = 0; ni <= 1; ++ni) for (int lim = 0; lim <= 1; ++lim)
